@@ -18,7 +18,7 @@ pub fn fault_free(sc: &Scenario) -> Scenario {
 }
 
 pub fn prerun(sc: &Scenario) -> Result<History, String> {
-    driver::run_opts(&fault_free(sc), &RunOpts { record_charges: true, light: false })
+    driver::run_opts(&fault_free(sc), &RunOpts { record_charges: true, light: false, record_positions: false })
 }
 
 /// Limits that make each individual limiter charge of the unlimited run fail exactly once:
